@@ -310,3 +310,121 @@ package gomavlib
 //@   loop 0 invariant -1 <= i && i < len(n.Endpoints) && n.channelProviders != nil
 //@   loop 0 modifies *n.channelProviders
 //@   loop 1 invariant true
+
+// ---------------------------------------------------------------- node write API (C11, C09, C08): one request per call
+
+//@ func (*Node).encodeFrame
+//@   let M0 = old(frame.SpecFrameMessage(fr))
+//@   requires n != nil && fr != nil && frame.SpecFrameMessage(fr) != nil
+//@   ensures  [raw-frame-untouched] frame.SpecIsRaw(M0) ==> err == nil && frame.SpecFrameMessage(fr) == M0
+//@   ensures  [needs-dialect-entry] !frame.SpecIsRaw(M0) && (n.dialectRW == nil || !frame.UfDialectHas(n.dialectRW, M0.GetID())) ==> err != nil
+//@   ensures  [re-encoded-with-the-checksum-of-what-is-sent] !frame.SpecIsRaw(M0) && err == nil ==> frame.SpecRawOK(fr) &&
+//@              frame.SpecChecksumOK(fr, frame.UfDialectExtra(n.dialectRW, M0.GetID())) && frame.SpecFrameMessage(fr).GetID() == M0.GetID()
+//@   ensures  [failed-encoding-leaves-the-frame-alone] err != nil ==> frame.SpecFrameMessage(fr) == M0
+//@   modifies *frame.SpecMessageField(fr) when !frame.SpecIsRaw(old(frame.SpecFrameMessage(fr))),
+//@            *frame.SpecChecksumField(fr) when !frame.SpecIsRaw(old(frame.SpecFrameMessage(fr)))
+
+//@ func (*Node).encodeMessage returns (out, err)
+//@   ghostlog (*message.ReadWriter).Write
+//@   requires n != nil && msg != nil
+//@   ensures  [raw-message-passes-unchanged] dynIs(msg, "*message.MessageRaw") ==> err == nil && out == msg && logLen() == 0
+//@   ensures  [no-dialect-no-encoding] !dynIs(msg, "*message.MessageRaw") && n.dialectRW == nil ==> err != nil
+//@   ensures  [unknown-message-refused] !dynIs(msg, "*message.MessageRaw") && n.dialectRW != nil && n.dialectRW.GetMessage(msg.GetID()) == nil ==> err != nil
+//@   ensures  [encoded-once] !dynIs(msg, "*message.MessageRaw") && err == nil ==> logLen() == 1 && logCallee(0, "(*message.ReadWriter).Write")
+//@   ensures  [by-its-own-codec] !dynIs(msg, "*message.MessageRaw") && err == nil ==> logArgIsPtr(0, 0, n.dialectRW.GetMessage(msg.GetID()))
+//@   ensures  [the-message-given] !dynIs(msg, "*message.MessageRaw") && err == nil ==> logArg(0, 1) == any(msg)
+//@   ensures  [for-the-out-version] !dynIs(msg, "*message.MessageRaw") && err == nil ==> logArgBool(0, 2) == (n.OutVersion == V2)
+//@   ensures  [result-is-the-encoding] !dynIs(msg, "*message.MessageRaw") && err == nil ==> out == any(logRetAny(0, 0))
+//@   ensures  [result-xor-error] (err == nil) == (out != nil)
+//@   modifies ghost:log
+
+//@ func (*Node).WriteMessageTo
+//@   ghostlog (*gomavlib.Node).encodeMessage
+//@   requires n != nil && m != nil
+//@   ensures  [encoding-error-nothing-sent] logRetErr(0) != nil ==> err == logRetErr(0) && logLen() == 1
+//@   ensures  [one-request-to-that-channel] logRetErr(0) == nil ==> err == nil && logLen() == 2 && (logIs(1, "recv", "terminate") ||
+//@              (logIs(1, "send", "chWriteTo") && logArg(1, 0).(writeToReq).ch == channel && logArg(1, 0).(writeToReq).what == any(logRetAny(0, 0))))
+//@   ensures  [encodes-what-it-was-given] logCallee(0, "(*gomavlib.Node).encodeMessage") && logArg(0, 1) == any(m)
+//@   modifies ghost:log
+
+//@ func (*Node).WriteMessageAll
+//@   ghostlog (*gomavlib.Node).encodeMessage
+//@   requires n != nil && m != nil
+//@   ensures  [encoding-error-nothing-sent] logRetErr(0) != nil ==> err == logRetErr(0) && logLen() == 1
+//@   ensures  [one-request-to-all] logRetErr(0) == nil ==> err == nil && logLen() == 2 && (logIs(1, "recv", "terminate") ||
+//@              (logIs(1, "send", "chWriteAll") && logArg(1, 0) == any(logRetAny(0, 0))))
+//@   ensures  [encodes-what-it-was-given] logCallee(0, "(*gomavlib.Node).encodeMessage") && logArg(0, 1) == any(m)
+//@   modifies ghost:log
+
+//@ func (*Node).WriteMessageExcept
+//@   ghostlog (*gomavlib.Node).encodeMessage
+//@   requires n != nil && m != nil
+//@   ensures  [encoding-error-nothing-sent] logRetErr(0) != nil ==> err == logRetErr(0) && logLen() == 1
+//@   ensures  [one-request-to-all-but-that-channel] logRetErr(0) == nil ==> err == nil && logLen() == 2 && (logIs(1, "recv", "terminate") ||
+//@              (logIs(1, "send", "chWriteExcept") && logArg(1, 0).(writeExceptReq).except == exceptChannel &&
+//@               logArg(1, 0).(writeExceptReq).what == any(logRetAny(0, 0))))
+//@   ensures  [encodes-what-it-was-given] logCallee(0, "(*gomavlib.Node).encodeMessage") && logArg(0, 1) == any(m)
+//@   modifies ghost:log
+
+//@ func (*Node).WriteFrameTo
+//@   ghostlog (*gomavlib.Node).encodeFrame
+//@   requires n != nil && fr != nil
+//@   ensures  [encoding-error-nothing-sent] logRetErr(0) != nil ==> err == logRetErr(0) && logLen() == 1
+//@   ensures  [one-request-to-that-channel] logRetErr(0) == nil ==> err == nil && logLen() == 2 && (logIs(1, "recv", "terminate") ||
+//@              (logIs(1, "send", "chWriteTo") && logArg(1, 0).(writeToReq).ch == channel && logArg(1, 0).(writeToReq).what == any(fr)))
+//@   ensures  [encodes-what-it-was-given] logCallee(0, "(*gomavlib.Node).encodeFrame") && logArg(0, 1) == any(fr)
+//@   modifies ghost:log
+
+//@ func (*Node).WriteFrameAll
+//@   ghostlog (*gomavlib.Node).encodeFrame
+//@   requires n != nil && fr != nil
+//@   ensures  [encoding-error-nothing-sent] logRetErr(0) != nil ==> err == logRetErr(0) && logLen() == 1
+//@   ensures  [one-request-to-all] logRetErr(0) == nil ==> err == nil && logLen() == 2 && (logIs(1, "recv", "terminate") ||
+//@              (logIs(1, "send", "chWriteAll") && logArg(1, 0) == any(fr)))
+//@   ensures  [encodes-what-it-was-given] logCallee(0, "(*gomavlib.Node).encodeFrame") && logArg(0, 1) == any(fr)
+//@   modifies ghost:log
+
+//@ func (*Node).WriteFrameExcept
+//@   ghostlog (*gomavlib.Node).encodeFrame
+//@   requires n != nil && fr != nil
+//@   ensures  [encoding-error-nothing-sent] logRetErr(0) != nil ==> err == logRetErr(0) && logLen() == 1
+//@   ensures  [one-request-to-all-but-that-channel] logRetErr(0) == nil ==> err == nil && logLen() == 2 && (logIs(1, "recv", "terminate") ||
+//@              (logIs(1, "send", "chWriteExcept") && logArg(1, 0).(writeExceptReq).except == exceptChannel &&
+//@               logArg(1, 0).(writeExceptReq).what == any(fr)))
+//@   ensures  [encodes-what-it-was-given] logCallee(0, "(*gomavlib.Node).encodeFrame") && logArg(0, 1) == any(fr)
+//@   modifies ghost:log
+
+// ---------------------------------------------------------------- lifecycle (C13, C14)
+
+//@ func (*Node).Close
+//@   requires n != nil && n.terminate != nil
+//@   ensures  [terminate-then-wait-for-the-node-loop] logLen() == 2 && logIs(0, "close", "terminate") && logIs(1, "recv", "done")
+//@   modifies ghost:log
+
+//@ func (*Channel).start
+//@   requires ch != nil && ch.node != nil
+//@   ensures  [registered-before-started] ch.running && logLen() == 2 && logCallee(0, "sync.WaitGroup.Add") && logGo(1, "(*gomavlib.Channel).run")
+//@   modifies ch.running, ghost:log
+
+//@ func (*Channel).close
+//@   requires ch != nil && ch.rwc != nil
+//@   ensures  [cancelled-first] logLen() >= 1 && logCallee(0, "call:func-value")
+//@   ensures  [never-started-channel-closes-its-transport] !old(ch.running) ==> logLen() == 2 && logCallee(1, "io.Closer.Close")
+//@   ensures  [running-channel-is-closed-by-its-own-routine] old(ch.running) ==> logLen() == 1
+//@   modifies ghost:log
+
+//@ func (*channelProvider).initialize
+//@   requires cp != nil
+//@   ensures  err == nil && cp.terminate != nil && chanCap(cp.terminate) == 0
+//@   modifies cp.terminate
+
+//@ func (*channelProvider).start
+//@   requires cp != nil && cp.node != nil
+//@   ensures  [registered-before-started] logLen() == 2 && logCallee(0, "sync.WaitGroup.Add") && logGo(1, "(*gomavlib.channelProvider).run")
+//@   modifies ghost:log
+
+//@ func (*channelProvider).close
+//@   ghostlog gomavlib.Endpoint.close
+//@   requires cp != nil && cp.endpoint != nil && cp.terminate != nil
+//@   ensures  [terminate-then-close-the-endpoint] logLen() == 2 && logIs(0, "close", "terminate") && logCallee(1, "gomavlib.Endpoint.close")
+//@   modifies ghost:log
